@@ -185,6 +185,9 @@ func c12Frames(r *rand.Rand, i int, cat []c11Class) []c12Frame {
 			tree, _ := c11Decode(t)
 			out = append(out, c12Frame{data: []byte(t), valid: true, class: "valid/EVENT-hostile", tree: tree})
 		case c < 70: // catalogue corruption
+			if len(cat) == 0 {
+				continue
+			}
 			fr, _, _, ok, _ := c11MakeCorrupted(i*1000+k, "C12/corrupt", cat, true)
 			if !ok {
 				continue
@@ -248,269 +251,7 @@ func TestVerif_C12(t *testing.T) {
 		}
 		r := vk.RNG("C12", i)
 		frames := c12Frames(r, i, cat)
-		h := &c12Handler{seed: i}
-		opt := mocrelay.NewDefaultRelayOption()
-		opt.RecvRateLimitRate = 1e9
-		opt.RecvRateLimitBurst = 1 << 30
-		opt.MaxMessageLength = 1 << 20
-		if r.IntN(2) == 0 {
-			opt.PingDuration = 0
-		}
-		// some sessions outlive the send timeout: idle periods between frames must not
-		// end a session whose peer keeps reading
-		pauseAt, pause := -1, time.Duration(0)
-		if i%8 == 1 {
-			opt.SendTimeout = 120 * time.Millisecond
-			pauseAt, pause = len(frames)/3, 400*time.Millisecond
-			rep.Count("connections_outliving_send_timeout", 1)
-		}
-		relay := mocrelay.NewRelay(h, opt)
-		srv := httptest.NewServer(relay)
-		defer srv.Close()
-		ctx, cancel := context.WithTimeout(context.Background(), 3*vk.WaitBound)
-		defer cancel()
-		conn, _, err := websocket.Dial(ctx, "ws"+strings.TrimPrefix(srv.URL, "http"), nil)
-		if err != nil {
-			rep.Inconclusive(fmt.Sprintf("C12: dial failed: %v", err))
-			return
-		}
-		defer conn.CloseNow()
-		conn.SetReadLimit(16 << 20)
-		classes := make([]string, len(frames))
-		for k, f := range frames {
-			classes[k] = f.class
-		}
-		wit := func(extra map[string]any) map[string]any {
-			m := map[string]any{"connection": i, "frame_classes": classes}
-			for k, v := range extra {
-				m[k] = v
-			}
-			return m
-		}
-		// writer
-		werr := make(chan error, 1)
-		go func() {
-			for fi, f := range frames {
-				if fi == pauseAt {
-					time.Sleep(pause)
-				}
-				typ := websocket.MessageText
-				if f.binary {
-					typ = websocket.MessageBinary
-				}
-				if err := conn.Write(ctx, typ, f.data); err != nil {
-					werr <- err
-					return
-				}
-			}
-			werr <- conn.Write(ctx, websocket.MessageText, []byte(`["REQ","zz-sentinel",{}]`))
-		}()
-		// reader: until the handler's END marker
-		var fromHandler []mocrelay.ServerMsg
-		var rejections []mocrelay.ServerMsg
-		ended := false
-		for !ended {
-			typ, data, err := conn.Read(ctx)
-			if err != nil {
-				we := ""
-				select {
-				case e := <-werr:
-					if e != nil {
-						we = e.Error()
-					}
-				default:
-				}
-				rep.Violation("connection/lost", fmt.Sprintf("the connection ended before the sentinel REQ was answered (read: %v, write: %s): a rejected frame must leave the connection usable", err, we),
-					wit(map[string]any{"received_so_far": len(fromHandler) + len(rejections)}))
-				return
-			}
-			if typ != websocket.MessageText {
-				rep.Violation("output/not-a-text-frame", "the relay sent a binary frame", wit(nil))
-				return
-			}
-			m, derr := c12Decode(data)
-			if derr != nil {
-				rep.Violation("output/undecodable", "a frame from the relay does not decode as a server message: "+derr.Error(), wit(map[string]any{"frame": string(data)}))
-				return
-			}
-			if bytes.Contains(data, []byte(c12Mark+"END")) {
-				ended = true
-			} else if bytes.Contains(data, []byte("⟦H")) || bytes.Contains(data, []byte(`⟦H`)) {
-				fromHandler = append(fromHandler, m)
-			} else {
-				rejections = append(rejections, m)
-			}
-		}
-		// rejections and handler output may travel on different paths inside the relay:
-		// a rejection may still be on its way when the handler's end marker arrives
-		nbad := 0
-		for _, f := range frames {
-			if !f.valid {
-				nbad++
-			}
-		}
-		for len(rejections) < nbad {
-			rctx, rcancel := context.WithTimeout(ctx, vk.WaitBound/4)
-			typ, data, err := conn.Read(rctx)
-			rcancel()
-			if err != nil {
-				break
-			}
-			if typ != websocket.MessageText {
-				rep.Violation("output/not-a-text-frame", "the relay sent a binary frame", wit(nil))
-				return
-			}
-			m, derr := c12Decode(data)
-			if derr != nil {
-				rep.Violation("output/undecodable", "a frame from the relay does not decode as a server message: "+derr.Error(), wit(map[string]any{"frame": string(data)}))
-				return
-			}
-			if bytes.Contains(data, []byte("⟦H")) {
-				rep.Violation("output/after-end-marker", "a handler emission arrived after the handler's last emission", wit(nil))
-				return
-			}
-			rejections = append(rejections, m)
-			rep.Count("rejections_arriving_after_the_end_marker", 1)
-		}
-		rep.Eval(1)
-		h.mu.Lock()
-		got := append([]mocrelay.ClientMsg{}, h.got...)
-		emitted := append([]mocrelay.ServerMsg{}, h.emitted...)
-		h.mu.Unlock()
-		// handler log vs valid frames
-		var valid []c12Frame
-		bad := 0
-		offenders := map[string]bool{}
-		for _, f := range frames {
-			if f.valid {
-				valid = append(valid, f)
-			} else {
-				bad++
-				if f.refID != "" {
-					offenders[f.refID] = true
-				}
-			}
-			rep.Seen("frame_classes", f.class)
-		}
-		if len(got) == 0 || !isSentinel(got[len(got)-1]) {
-			rep.Violation("connection/sentinel-not-delivered", "the sentinel REQ sent after the last frame did not reach the handler", wit(nil))
-			return
-		}
-		got = got[:len(got)-1]
-		if len(got) != len(valid) {
-			// find the first divergence for the signature
-			sig := "handler/missing-valid-frame"
-			if len(got) > len(valid) {
-				sig = "handler/received-invalid-frame"
-			}
-			for k := 0; k < len(got) && k < len(valid); k++ {
-				if !c11SameMessage(valid[k].tree, got[k]) {
-					if sig == "handler/received-invalid-frame" {
-						// which bad frame does it denote?
-						for _, f := range frames {
-							if !f.valid && !f.binary {
-								if tree, err := c11Decode(string(f.data)); err == nil && c11SameMessage(tree, got[k]) {
-									sig += "/" + strings.SplitN(f.class, "/", 3)[0] + "/" + lastPart(f.class)
-									break
-								}
-							}
-						}
-					}
-					if sig == "handler/missing-valid-frame" {
-						sig += "/" + valid[k].class
-					}
-					break
-				}
-			}
-			if sig == "handler/missing-valid-frame" && len(got) < len(valid) {
-				sig += "/" + valid[len(got)].class
-			}
-			rep.Violation(sig, fmt.Sprintf("%d valid authentic frames were sent, the handler received %d messages", len(valid), len(got)), wit(map[string]any{"handler_got": describeClient(got)}))
-			return
-		}
-		for k := range got {
-			if !c11SameMessage(valid[k].tree, got[k]) {
-				rep.Violation("handler/order-or-content", fmt.Sprintf("message %d at the handler is not the %d-th valid frame", k, k), wit(map[string]any{"handler_got": describeClient(got), "frame": string(valid[k].data)}))
-				return
-			}
-		}
-		if len(rejections) != bad {
-			sig := "rejection/missing"
-			if len(rejections) > bad {
-				sig = "rejection/extra"
-			}
-			rep.Violation(sig, fmt.Sprintf("%d frames had to be rejected, the client received %d rejections", bad, len(rejections)), wit(map[string]any{"rejections": describeServer(rejections)}))
-			return
-		}
-		// every string that occurs (decoded) in an offending frame
-		named := map[string]bool{}
-		var walk func(v any)
-		walk = func(v any) {
-			switch t := v.(type) {
-			case string:
-				named[t] = true
-			case []any:
-				for _, e := range t {
-					walk(e)
-				}
-			case map[string]any:
-				for _, e := range t {
-					walk(e)
-				}
-			}
-		}
-		for _, f := range frames {
-			if !f.valid {
-				var v any
-				if json.Unmarshal(f.data, &v) == nil {
-					walk(v)
-				}
-			}
-		}
-		for _, m := range rejections {
-			switch x := m.(type) {
-			case *mocrelay.ServerNoticeMsg:
-			case *mocrelay.ServerOKMsg:
-				// a rejecting OK must name an event id that an offending frame carries
-				if x.Accepted || !(offenders[x.EventID] || named[x.EventID]) {
-					rep.Violation("rejection/wrong-form", "an OK that is not a rejection of an offending event: "+vk.DescribeServerMsg(m), wit(nil))
-					return
-				}
-			case *mocrelay.ServerClosedMsg:
-				if !named[x.SubscriptionID] {
-					rep.Violation("rejection/wrong-form", "a CLOSED that names no subscription of an offending frame: "+vk.DescribeServerMsg(m), wit(nil))
-					return
-				}
-			default:
-				rep.Violation("rejection/wrong-form", "a frame was answered by "+vk.DescribeServerMsg(m), wit(nil))
-				return
-			}
-		}
-		// handler output
-		if len(fromHandler) != len(emitted) {
-			rep.Violation("output/count", fmt.Sprintf("the handler emitted %d messages, the client received %d", len(emitted), len(fromHandler)), wit(nil))
-			return
-		}
-		for k := range emitted {
-			if !c12Same(emitted[k], fromHandler[k]) {
-				rep.Violation("output/altered-or-reordered", fmt.Sprintf("emission %d arrived as a different message", k), wit(map[string]any{"emitted": vk.JSON(emitted[k]), "received": vk.JSON(fromHandler[k])}))
-				return
-			}
-			rep.Seen("server_message_types", emitted[k].ServerMsgLabel())
-		}
-		rep.Count("connections", 1)
-		rep.Count("frames", int64(len(frames)))
-		rep.Count("frames_admitted", int64(len(valid)))
-		rep.Count("frames_rejected", int64(bad))
-		rep.Count("handler_emissions", int64(len(emitted)))
-		if bad > 0 && len(valid) > 0 {
-			rep.Nontrivial(strings.Join(classes, ","))
-		}
-		if rep.WantSample() {
-			rep.Sample(map[string]any{"frame_classes": classes[:min(12, len(classes))], "first_frames": firstN(frames, 4), "rejections": describeServer(rejections)[:min(4, len(rejections))]})
-		}
-		conn.Close(websocket.StatusNormalClosure, "")
-		time.Sleep(0)
+		c12Connection(rep, i, r, frames, "")
 	})
 	rep.Require(rep.Counter("connections") >= int64(nConn*9/10), "connections")
 	rep.Require(rep.SetSize("server_message_types") == 7, "all seven server message types")
@@ -553,4 +294,272 @@ func firstN(fs []c12Frame, n int) []string {
 		out = append(out, s)
 	}
 	return out
+}
+
+// c12Connection runs one WebSocket connection with the given frames against a fresh relay
+// and judges it (also used by C01 for its end-to-end clause, with a signature prefix).
+func c12Connection(rep *vk.Report, i int, r *rand.Rand, frames []c12Frame, sigPrefix string) {
+	h := &c12Handler{seed: i}
+	opt := mocrelay.NewDefaultRelayOption()
+	opt.RecvRateLimitRate = 1e9
+	opt.RecvRateLimitBurst = 1 << 30
+	opt.MaxMessageLength = 1 << 20
+	if r.IntN(2) == 0 {
+		opt.PingDuration = 0
+	}
+	// some sessions outlive the send timeout: idle periods between frames must not
+	// end a session whose peer keeps reading
+	pauseAt, pause := -1, time.Duration(0)
+	if i%8 == 1 {
+		opt.SendTimeout = 120 * time.Millisecond
+		pauseAt, pause = len(frames)/3, 400*time.Millisecond
+		rep.Count("connections_outliving_send_timeout", 1)
+	}
+	relay := mocrelay.NewRelay(h, opt)
+	srv := httptest.NewServer(relay)
+	defer srv.Close()
+	ctx, cancel := context.WithTimeout(context.Background(), 3*vk.WaitBound)
+	defer cancel()
+	conn, _, err := websocket.Dial(ctx, "ws"+strings.TrimPrefix(srv.URL, "http"), nil)
+	if err != nil {
+		rep.Inconclusive(fmt.Sprintf("C12: dial failed: %v", err))
+		return
+	}
+	defer conn.CloseNow()
+	conn.SetReadLimit(16 << 20)
+	classes := make([]string, len(frames))
+	for k, f := range frames {
+		classes[k] = f.class
+	}
+	wit := func(extra map[string]any) map[string]any {
+		m := map[string]any{"connection": i, "frame_classes": classes}
+		for k, v := range extra {
+			m[k] = v
+		}
+		return m
+	}
+	// writer
+	werr := make(chan error, 1)
+	go func() {
+		for fi, f := range frames {
+			if fi == pauseAt {
+				time.Sleep(pause)
+			}
+			typ := websocket.MessageText
+			if f.binary {
+				typ = websocket.MessageBinary
+			}
+			if err := conn.Write(ctx, typ, f.data); err != nil {
+				werr <- err
+				return
+			}
+		}
+		werr <- conn.Write(ctx, websocket.MessageText, []byte(`["REQ","zz-sentinel",{}]`))
+	}()
+	// reader: until the handler's END marker
+	var fromHandler []mocrelay.ServerMsg
+	var rejections []mocrelay.ServerMsg
+	ended := false
+	for !ended {
+		typ, data, err := conn.Read(ctx)
+		if err != nil {
+			we := ""
+			select {
+			case e := <-werr:
+				if e != nil {
+					we = e.Error()
+				}
+			default:
+			}
+			rep.Violation(sigPrefix+"connection/lost", fmt.Sprintf("the connection ended before the sentinel REQ was answered (read: %v, write: %s): a rejected frame must leave the connection usable", err, we),
+				wit(map[string]any{"received_so_far": len(fromHandler) + len(rejections)}))
+			return
+		}
+		if typ != websocket.MessageText {
+			rep.Violation(sigPrefix+"output/not-a-text-frame", "the relay sent a binary frame", wit(nil))
+			return
+		}
+		m, derr := c12Decode(data)
+		if derr != nil {
+			rep.Violation(sigPrefix+"output/undecodable", "a frame from the relay does not decode as a server message: "+derr.Error(), wit(map[string]any{"frame": string(data)}))
+			return
+		}
+		if bytes.Contains(data, []byte(c12Mark+"END")) {
+			ended = true
+		} else if bytes.Contains(data, []byte("⟦H")) || bytes.Contains(data, []byte(`⟦H`)) {
+			fromHandler = append(fromHandler, m)
+		} else {
+			rejections = append(rejections, m)
+		}
+	}
+	// rejections and handler output may travel on different paths inside the relay:
+	// a rejection may still be on its way when the handler's end marker arrives
+	nbad := 0
+	for _, f := range frames {
+		if !f.valid {
+			nbad++
+		}
+	}
+	for len(rejections) < nbad {
+		rctx, rcancel := context.WithTimeout(ctx, vk.WaitBound/4)
+		typ, data, err := conn.Read(rctx)
+		rcancel()
+		if err != nil {
+			break
+		}
+		if typ != websocket.MessageText {
+			rep.Violation(sigPrefix+"output/not-a-text-frame", "the relay sent a binary frame", wit(nil))
+			return
+		}
+		m, derr := c12Decode(data)
+		if derr != nil {
+			rep.Violation(sigPrefix+"output/undecodable", "a frame from the relay does not decode as a server message: "+derr.Error(), wit(map[string]any{"frame": string(data)}))
+			return
+		}
+		if bytes.Contains(data, []byte("⟦H")) {
+			rep.Violation(sigPrefix+"output/after-end-marker", "a handler emission arrived after the handler's last emission", wit(nil))
+			return
+		}
+		rejections = append(rejections, m)
+		rep.Count("rejections_arriving_after_the_end_marker", 1)
+	}
+	rep.Eval(1)
+	h.mu.Lock()
+	got := append([]mocrelay.ClientMsg{}, h.got...)
+	emitted := append([]mocrelay.ServerMsg{}, h.emitted...)
+	h.mu.Unlock()
+	// handler log vs valid frames
+	var valid []c12Frame
+	bad := 0
+	offenders := map[string]bool{}
+	for _, f := range frames {
+		if f.valid {
+			valid = append(valid, f)
+		} else {
+			bad++
+			if f.refID != "" {
+				offenders[f.refID] = true
+			}
+		}
+		rep.Seen("frame_classes", f.class)
+	}
+	if len(got) == 0 || !isSentinel(got[len(got)-1]) {
+		rep.Violation(sigPrefix+"connection/sentinel-not-delivered", "the sentinel REQ sent after the last frame did not reach the handler", wit(nil))
+		return
+	}
+	got = got[:len(got)-1]
+	if len(got) != len(valid) {
+		// find the first divergence for the signature
+		sig := "handler/missing-valid-frame"
+		if len(got) > len(valid) {
+			sig = "handler/received-invalid-frame"
+		}
+		for k := 0; k < len(got) && k < len(valid); k++ {
+			if !c11SameMessage(valid[k].tree, got[k]) {
+				if sig == "handler/received-invalid-frame" {
+					// which bad frame does it denote?
+					for _, f := range frames {
+						if !f.valid && !f.binary {
+							if tree, err := c11Decode(string(f.data)); err == nil && c11SameMessage(tree, got[k]) {
+								sig += "/" + strings.SplitN(f.class, "/", 3)[0] + "/" + lastPart(f.class)
+								break
+							}
+						}
+					}
+				}
+				if sig == "handler/missing-valid-frame" {
+					sig += "/" + valid[k].class
+				}
+				break
+			}
+		}
+		if sig == "handler/missing-valid-frame" && len(got) < len(valid) {
+			sig += "/" + valid[len(got)].class
+		}
+		rep.Violation(sigPrefix+sig, fmt.Sprintf("%d valid authentic frames were sent, the handler received %d messages", len(valid), len(got)), wit(map[string]any{"handler_got": describeClient(got)}))
+		return
+	}
+	for k := range got {
+		if !c11SameMessage(valid[k].tree, got[k]) {
+			rep.Violation(sigPrefix+"handler/order-or-content", fmt.Sprintf("message %d at the handler is not the %d-th valid frame", k, k), wit(map[string]any{"handler_got": describeClient(got), "frame": string(valid[k].data)}))
+			return
+		}
+	}
+	if len(rejections) != bad {
+		sig := "rejection/missing"
+		if len(rejections) > bad {
+			sig = "rejection/extra"
+		}
+		rep.Violation(sigPrefix+sig, fmt.Sprintf("%d frames had to be rejected, the client received %d rejections", bad, len(rejections)), wit(map[string]any{"rejections": describeServer(rejections)}))
+		return
+	}
+	// every string that occurs (decoded) in an offending frame
+	named := map[string]bool{}
+	var walk func(v any)
+	walk = func(v any) {
+		switch t := v.(type) {
+		case string:
+			named[t] = true
+		case []any:
+			for _, e := range t {
+				walk(e)
+			}
+		case map[string]any:
+			for _, e := range t {
+				walk(e)
+			}
+		}
+	}
+	for _, f := range frames {
+		if !f.valid {
+			var v any
+			if json.Unmarshal(f.data, &v) == nil {
+				walk(v)
+			}
+		}
+	}
+	for _, m := range rejections {
+		switch x := m.(type) {
+		case *mocrelay.ServerNoticeMsg:
+		case *mocrelay.ServerOKMsg:
+			// a rejecting OK must name an event id that an offending frame carries
+			if x.Accepted || !(offenders[x.EventID] || named[x.EventID]) {
+				rep.Violation(sigPrefix+"rejection/wrong-form", "an OK that is not a rejection of an offending event: "+vk.DescribeServerMsg(m), wit(nil))
+				return
+			}
+		case *mocrelay.ServerClosedMsg:
+			if !named[x.SubscriptionID] {
+				rep.Violation(sigPrefix+"rejection/wrong-form", "a CLOSED that names no subscription of an offending frame: "+vk.DescribeServerMsg(m), wit(nil))
+				return
+			}
+		default:
+			rep.Violation(sigPrefix+"rejection/wrong-form", "a frame was answered by "+vk.DescribeServerMsg(m), wit(nil))
+			return
+		}
+	}
+	// handler output
+	if len(fromHandler) != len(emitted) {
+		rep.Violation(sigPrefix+"output/count", fmt.Sprintf("the handler emitted %d messages, the client received %d", len(emitted), len(fromHandler)), wit(nil))
+		return
+	}
+	for k := range emitted {
+		if !c12Same(emitted[k], fromHandler[k]) {
+			rep.Violation(sigPrefix+"output/altered-or-reordered", fmt.Sprintf("emission %d arrived as a different message", k), wit(map[string]any{"emitted": vk.JSON(emitted[k]), "received": vk.JSON(fromHandler[k])}))
+			return
+		}
+		rep.Seen("server_message_types", emitted[k].ServerMsgLabel())
+	}
+	rep.Count("connections", 1)
+	rep.Count("frames", int64(len(frames)))
+	rep.Count("frames_admitted", int64(len(valid)))
+	rep.Count("frames_rejected", int64(bad))
+	rep.Count("handler_emissions", int64(len(emitted)))
+	if bad > 0 && len(valid) > 0 {
+		rep.Nontrivial(strings.Join(classes, ","))
+	}
+	if rep.WantSample() {
+		rep.Sample(map[string]any{"frame_classes": classes[:min(12, len(classes))], "first_frames": firstN(frames, 4), "rejections": describeServer(rejections)[:min(4, len(rejections))]})
+	}
+	conn.Close(websocket.StatusNormalClosure, "")
+	time.Sleep(0)
 }
